@@ -27,9 +27,11 @@ pub struct Norm<'a> {
     pub return_no: usize,
     pub forpat_no: usize,
     pub tmp_no: usize,
+    pub split_no: usize,
+    pub splitk_no: BTreeMap<String, usize>,
+    pub spine_no: usize,
     pub call_no: BTreeMap<String, usize>,
     pub let_no: BTreeMap<String, usize>,
-    pub chain_no: BTreeMap<String, usize>,
     pub hoisted: Vec<Stmt>,
     pub log: BTreeMap<String, usize>,
     pub raws: Vec<String>,
@@ -38,6 +40,20 @@ pub struct Norm<'a> {
     pub errors: Vec<String>,
     pub closure_depth: usize,
     pub canaries: Vec<String>,
+    pub omap: crate::align::OrdMap,
+    pub sigs: crate::align::Sigs,
+    pub woven: BTreeSet<String>,
+    pub pending_loop_sig: Option<String>,
+    /// R-STRSLICE: parameters whose declared type is `&str`
+    pub str_idents: BTreeSet<String>,
+    /// R-ITER(for): parameters whose (overridden) type is the `VxIter` model type
+    pub iter_idents: BTreeSet<String>,
+    pub bind_no: BTreeMap<String, usize>,
+    pub bind_done: BTreeSet<usize>,
+    /// parameters of type `&mut [T]` (R-SLICEPAT binds `&mut s[k]` for them)
+    pub mut_slices: Vec<String>,
+    /// `@opt retbind-typed`: R-RETBIND annotates `let r: T = tail;` with the declared return type (coercions at the return site still apply)
+    pub ret_ty: Option<Type>,
 }
 
 const ITER_HEADS_M: &[&str] = &["vx_iter", "vx_into_iter", "vx_iter_mut", "vx_chars", "vx_char_indices", "vx_bytes", "vx_keys", "vx_values"];
@@ -47,10 +63,10 @@ impl<'a> Norm<'a> {
     pub fn new(spec: &'a FnSpec, unit: &'a Unit, canary: bool, fname: &str) -> Self {
         Norm {
             spec, unit, canary, fname: fname.to_string(),
-            loop_no: 0, closure_no: 0, if_no: 0, match_no: 0, assert_no: 0, return_no: 0, forpat_no: 0, tmp_no: 0,
-            call_no: Default::default(), let_no: Default::default(), chain_no: Default::default(), hoisted: vec![], log: Default::default(),
+            loop_no: 0, closure_no: 0, if_no: 0, match_no: 0, assert_no: 0, return_no: 0, forpat_no: 0, tmp_no: 0, split_no: 0, splitk_no: Default::default(), spine_no: 0,
+            call_no: Default::default(), let_no: Default::default(), hoisted: vec![], log: Default::default(),
             raws: vec![], used_anchors: Default::default(), avail_anchors: Default::default(), errors: vec![],
-            closure_depth: 0, canaries: vec![],
+            closure_depth: 0, canaries: vec![], omap: crate::align::OrdMap::identity(), sigs: Default::default(), woven: Default::default(), pending_loop_sig: None, str_idents: Default::default(), iter_idents: Default::default(), bind_no: Default::default(), bind_done: Default::default(), mut_slices: vec![], ret_ty: None,
         }
     }
     pub fn bump(&mut self, r: &str) {
@@ -62,11 +78,59 @@ impl<'a> Norm<'a> {
         let lit = LitInt::new(&n.to_string(), Span::call_site());
         parse_quote! { __vx_raw!(#lit); }
     }
+    /// record the signature of the node that just received ordinal (kind, current count)
+    pub fn sig(&mut self, kind: &str, node: &impl ToTokens) {
+        self.sigs.entry(kind.to_string()).or_default().push(squash(&ts(node)));
+    }
+    /// baseline ordinal of the n-th current node of `kind` (identity without a baseline)
+    pub fn b(&self, kind: &str, n: usize) -> usize {
+        self.omap.get(kind, n)
+    }
+    /// translate an anchor key phrased with current ordinals into baseline ordinals
+    fn tr_key(&self, key: &str) -> String {
+        fn split_num(s: &str) -> Option<(usize, &str)> {
+            let end = s.find(|c: char| !c.is_ascii_digit()).unwrap_or(s.len());
+            if end == 0 { return None; }
+            Some((s[..end].parse().ok()?, &s[end..]))
+        }
+        for (pre, kind) in [("loop", "loop"), ("if", "if"), ("match", "match"), ("closure", "closure")] {
+            if let Some(rest) = key.strip_prefix(pre) {
+                if let Some((n, tail)) = split_num(rest) { return format!("{}{}{}", pre, self.b(kind, n), tail); }
+            }
+        }
+        for (pre, kind) in [("return#", "return"), ("continue#", "continue"), ("break#", "break")] {
+            if let Some(rest) = key.strip_prefix(pre) {
+                if let Some((n, tail)) = split_num(rest) { return format!("{}{}{}", pre, self.b(kind, n), tail); }
+            }
+        }
+        for pre in ["after-let ", "before-let "] {
+            if let Some(rest) = key.strip_prefix(pre) {
+                let (name, k) = match rest.rsplit_once('#') { Some((nm, k)) => (nm, k.parse::<usize>().unwrap_or(1)), None => (rest, 1) };
+                return format!("{}{}#{}", pre, name, self.b(&format!("let:{}", name), k));
+            }
+        }
+        for pre in ["after.", "before."] {
+            if let Some(rest) = key.strip_prefix(pre) {
+                if let Some((name, k)) = rest.rsplit_once('#') {
+                    if let Ok(k) = k.parse::<usize>() { return format!("{}{}#{}", pre, name, self.b(&format!("call:{}", name), k)); }
+                }
+            }
+        }
+        key.to_string()
+    }
+    fn norm_key(key: &str) -> String {
+        for pre in ["after-let ", "before-let "] {
+            if let Some(rest) = key.strip_prefix(pre) { if !rest.contains('#') { return format!("{}{}#1", pre, rest); } }
+        }
+        key.to_string()
+    }
     fn anchor(&mut self, key: &str) -> Vec<Stmt> {
-        self.avail_anchors.insert(key.to_string());
-        let texts: Vec<String> = self.spec.at.iter().filter(|(a, _)| a == key).map(|(_, t)| t.clone()).collect();
+        let key = Self::norm_key(&self.tr_key(key));
+        if !self.woven.insert(key.clone()) { return vec![]; }
+        self.avail_anchors.insert(key.clone());
+        let texts: Vec<String> = self.spec.at.iter().filter(|(a, _)| Self::norm_key(a) == key).map(|(_, t)| t.clone()).collect();
         if !texts.is_empty() {
-            self.used_anchors.insert(key.to_string());
+            for (a, _) in self.spec.at.iter().filter(|(a, _)| Self::norm_key(a) == key) { self.used_anchors.insert(a.clone()); }
         }
         texts.iter().map(|t| self.raw_stmt(t)).collect()
     }
@@ -79,13 +143,15 @@ impl<'a> Norm<'a> {
         Some(self.raw_stmt(&format!("assert(false); /*VX-CANARY {}*/", tag)))
     }
 
-    fn is_iter_chain(e: &Expr) -> bool {
+    fn is_iter_chain(e: &Expr, iter_fns: &[String]) -> bool {
         match e {
             Expr::MethodCall(mc) => {
-                if ITER_HEADS_M.contains(&mc.method.to_string().as_str()) {
+                let m = mc.method.to_string();
+                // @iter-fn: methods of extracted types whose return type was mapped onto VxIter
+                if ITER_HEADS_M.contains(&m.as_str()) || iter_fns.iter().any(|f| f == &m) {
                     return true;
                 }
-                Self::is_iter_chain(&mc.receiver)
+                Self::is_iter_chain(&mc.receiver, iter_fns)
             }
             Expr::Call(c) => {
                 if let Expr::Path(p) = &*c.func {
@@ -95,7 +161,7 @@ impl<'a> Norm<'a> {
                 }
                 false
             }
-            Expr::Paren(p) => Self::is_iter_chain(&p.expr),
+            Expr::Paren(p) => Self::is_iter_chain(&p.expr, iter_fns),
             _ => false,
         }
     }
@@ -118,7 +184,8 @@ impl<'a> Norm<'a> {
                     self.visit_expr_mut(a);
                 }
                 self.assert_no += 1;
-                let n = self.assert_no;
+                self.sig("assert", &mac.tokens);
+                let n = self.b("assert", self.assert_no);
                 let cond: Expr = if name.ends_with("_eq") {
                     let (a, b) = (&args[0], &args[1]);
                     parse_quote!(#a == #b)
@@ -140,7 +207,9 @@ impl<'a> Norm<'a> {
                 self.bump("R-ASSERT");
                 Some(parse_quote!(vx_unreachable()))
             }
-            "vec" => {
+            "vec" | "smallvec" | "smallvec_inline" => {
+                // smallvec![..] / smallvec_inline![..] follow R-TYPE (SmallVec -> Vec): same element list as vec![..]
+                if name != "vec" { self.bump("R-TYPE"); }
                 // vec![e; n] -> vx_vec_repeat(e, n); other forms stay
                 let toks = mac.tokens.to_string();
                 if toks.contains(';') {
@@ -241,6 +310,12 @@ impl<'a> Norm<'a> {
 
     /// R-SLICEPAT and R-LETCHAIN on an `if`.
     fn rewrite_if(&mut self, i: &mut ExprIf) {
+        // R-REFPAT on `if let`: derefs go to the start of the then-branch
+        if let Expr::Let(l) = &mut *i.cond {
+            let mut derefs: Vec<Stmt> = vec![];
+            self.strip_ref_pats(&mut l.pat, &mut derefs);
+            for (k, d) in derefs.into_iter().enumerate() { i.then_branch.stmts.insert(k, d); }
+        }
         // slice pattern: if let [a, ..] = E
         if let Expr::Let(l) = &*i.cond {
             if let Some((n, binds)) = Self::slice_pat_bindings(&l.pat) {
@@ -300,7 +375,125 @@ impl<'a> Norm<'a> {
     }
 }
 
+impl<'a> Norm<'a> {
+    /// R-REFPAT: replace every reference pattern `&..&x` inside `p` by a fresh binder and emit `let x = *..*fresh;`
+    fn strip_ref_pats(&mut self, p: &mut Pat, out: &mut Vec<Stmt>) {
+        match p {
+            Pat::Reference(_) => {
+                let mut depth = 0usize;
+                let mut cur: Pat = p.clone();
+                while let Pat::Reference(r) = cur { depth += 1; cur = (*r.pat).clone(); }
+                match &cur {
+                    Pat::Ident(pi) if pi.subpat.is_none() && pi.by_ref.is_none() => {
+                        self.tmp_no += 1;
+                        let fresh = Ident::new(&format!("__vx_r{}", self.tmp_no), Span::call_site());
+                        let mut ex: Expr = parse_quote!(#fresh);
+                        for _ in 0..depth { ex = parse_quote!(*#ex); }
+                        out.push(parse_quote!(let #cur = #ex;));
+                        *p = parse_quote!(#fresh);
+                        self.bump("R-REFPAT");
+                    }
+                    _ => self.errors.push(format!("reference pattern over a non-identifier in {}", self.fname)),
+                }
+            }
+            Pat::Tuple(t) => { for e in t.elems.iter_mut() { self.strip_ref_pats(e, out); } }
+            Pat::TupleStruct(t) => { for e in t.elems.iter_mut() { self.strip_ref_pats(e, out); } }
+            Pat::Paren(t) => self.strip_ref_pats(&mut t.pat, out),
+            Pat::Type(t) => self.strip_ref_pats(&mut t.pat, out),
+            Pat::Struct(st) => { for f in st.fields.iter_mut() { self.strip_ref_pats(&mut f.pat, out); } }
+            _ => {}
+        }
+    }
+
+    fn letsplit_expr(&mut self, e: &mut Expr, pre: &mut Vec<Stmt>) {
+        match e {
+            Expr::Try(t) => self.letsplit_expr(&mut t.expr, pre),
+            Expr::Await(t) => self.letsplit_expr(&mut t.base, pre),
+            Expr::Paren(t) => self.letsplit_expr(&mut t.expr, pre),
+            Expr::MethodCall(mc) => {
+                if !self.spec.letsplit.contains(&mc.method.to_string()) { return; }
+                let simple = |x: &Expr| matches!(x, Expr::Path(_) | Expr::Field(_) | Expr::Lit(_));
+                if !simple(&mc.receiver) {
+                    self.letsplit_expr(&mut mc.receiver, pre);
+                    self.split_no += 1;
+                    let t = Ident::new(&format!("__vx_t{}", self.split_no), Span::call_site());
+                    let r = &mc.receiver;
+                    pre.push(parse_quote!(let mut #t = #r;));
+                    mc.receiver = Box::new(parse_quote!(#t));
+                    self.bump("R-LETSPLIT");
+                }
+                // `&mut CALL` arguments (evaluated after the now-simple receiver): bound in order
+                for a in mc.args.iter_mut() {
+                    if let Expr::Reference(rf) = a {
+                        if rf.mutability.is_some() && matches!(&*rf.expr, Expr::MethodCall(_) | Expr::Call(_)) {
+                            self.split_no += 1;
+                            let t = Ident::new(&format!("__vx_t{}", self.split_no), Span::call_site());
+                            let inner = &rf.expr;
+                            pre.push(parse_quote!(let mut #t = #inner;));
+                            rf.expr = Box::new(parse_quote!(#t));
+                            self.bump("R-LETSPLIT");
+                        }
+                    }
+                }
+            }
+            _ => {}
+        }
+    }
+
+    /// root `R.peek_mut()` of a method chain: rename to `peek`, return R
+    fn peek_mut_root(e: &mut Expr) -> Option<Expr> {
+        if let Expr::MethodCall(mc) = e {
+            if mc.method == "peek_mut" && mc.args.is_empty() {
+                mc.method = Ident::new("peek", mc.method.span());
+                return Some((*mc.receiver).clone());
+            }
+            return Self::peek_mut_root(&mut mc.receiver);
+        }
+        None
+    }
+    fn single_binder(p: &Pat) -> Option<Ident> {
+        match p {
+            Pat::Ident(pi) => Some(pi.ident.clone()),
+            Pat::TupleStruct(t) if t.elems.len() == 1 => Self::single_binder(&t.elems[0]),
+            Pat::Paren(t) => Self::single_binder(&t.pat),
+            _ => None,
+        }
+    }
+}
+
+/// R-MAP(peek_mut): `PeekMut::pop(X)` -> `R.vx_peekmut_pop()` for the binder X of the enclosing `while let .. = R.peek_mut()..`
+struct PeekMutPop { binder: Ident, recv: Expr, replaced: usize, other_uses: usize }
+impl VisitMut for PeekMutPop {
+    fn visit_expr_mut(&mut self, e: &mut Expr) {
+        if let Expr::Call(c) = e {
+            if squash(&ts(&c.func)).ends_with("PeekMut::pop") && c.args.len() == 1 {
+                if let Expr::Path(p) = &c.args[0] {
+                    if p.path.is_ident(&self.binder) {
+                        let r = &self.recv;
+                        *e = parse_quote!(#r.vx_peekmut_pop());
+                        self.replaced += 1;
+                        return;
+                    }
+                }
+            }
+        }
+        if let Expr::Path(p) = e { if p.path.is_ident(&self.binder) { self.other_uses += 1; } }
+        visit_mut::visit_expr_mut(self, e);
+    }
+}
+
 use syn::parse::Parser;
+
+pub fn strip_jj_lib_prefix(p: &mut Path, log: &mut BTreeMap<String, usize>) -> bool {
+    if p.leading_colon.is_some() && p.segments.len() > 2 && p.segments[0].ident == "jj_lib" && p.segments[1].ident == "content_hash" {
+        let rest: Punctuated<PathSegment, Token![::]> = p.segments.iter().skip(2).cloned().collect();
+        p.segments = rest;
+        p.leading_colon = None;
+        *log.entry("R-MACRO-EXPAND(path)".to_string()).or_default() += 1;
+        return true;
+    }
+    false
+}
 
 pub struct Rename<'a> {
     pub from: &'a str,
@@ -369,7 +562,19 @@ impl<'a> VisitMut for Norm<'a> {
 
     fn visit_attribute_mut(&mut self, _a: &mut Attribute) {}
 
+    /// R-MACRO-EXPAND (paths): the derive macro names jj_lib items by absolute path `::jj_lib::content_hash::X`; in the
+    /// single-file crate they are just `X`.
+    fn visit_path_mut(&mut self, p: &mut Path) {
+        strip_jj_lib_prefix(p, &mut self.log);
+        visit_mut::visit_path_mut(self, p);
+    }
+
     fn visit_expr_path_mut(&mut self, p: &mut ExprPath) {
+        if let Some(q) = &mut p.qself {
+            // `<T as ::jj_lib::content_hash::Trait>::f`: the trait part shrinks by the stripped segments
+            let before = p.path.segments.len();
+            if strip_jj_lib_prefix(&mut p.path, &mut self.log) { q.position -= before - p.path.segments.len(); }
+        }
         if p.path.segments.len() > 1 {
             if let Some(seg) = p.path.segments.first_mut() {
                 if let Some((_, to)) = self.unit.path_map.iter().find(|(f, _)| seg.ident == f.as_str()) {
@@ -381,8 +586,66 @@ impl<'a> VisitMut for Norm<'a> {
         visit_mut::visit_expr_path_mut(self, p);
     }
 
+    fn visit_expr_struct_mut(&mut self, s: &mut ExprStruct) {
+        // R-TYPE on the path of a struct literal: `a::b::T { .. }` with `@type-map a::b::T => T`
+        if s.qself.is_none() {
+            let key = squash(&ts(&s.path));
+            if let Some((_, to)) = self.unit.type_map.iter().find(|(f, _)| f == &key) {
+                if let Ok(np) = parse_str::<Path>(to) {
+                    s.path = np;
+                    self.bump("R-TYPE");
+                }
+            }
+        }
+        visit_mut::visit_expr_struct_mut(self, s);
+    }
+
     fn visit_block_mut(&mut self, b: &mut Block) {
-        let old = std::mem::take(&mut b.stmts);
+        let mut old = std::mem::take(&mut b.stmts);
+        // R-BINDSPINE (@bindspine f g []): on the first-evaluated spine of a `let` initialiser / statement-level `if let` scrutinee
+        // (method receiver, first argument of a path call, operand of `?`/`.await`) calls of the named callees are bound to `let __tK = ..;`
+        if !self.spec.bindspine.is_empty() {
+            let mut out: Vec<Stmt> = vec![];
+            for mut s in old {
+                let mut pre: Vec<Stmt> = vec![];
+                match &mut s {
+                    Stmt::Local(l) => { if let Some(init) = &mut l.init { self.split_spine(&mut init.expr, &mut pre); } }
+                    // statement-level `if let P = E { .. }`: E is evaluated first
+                    Stmt::Expr(Expr::If(i), _) => { if let Expr::Let(l) = &mut *i.cond { self.split_spine(&mut l.expr, &mut pre); } }
+                    // expression statement `x.m(..);` / `f(..);`
+                    Stmt::Expr(e @ (Expr::MethodCall(_) | Expr::Call(_)), Some(_)) => self.split_spine(e, &mut pre),
+                    _ => {}
+                }
+                out.extend(pre);
+                out.push(s);
+            }
+            old = out;
+        }
+        // R-LETSPLIT (@letsplit m1 m2): in a `let` initialiser, the receiver chain of `.m(..)` is bound by `let mut __vx_tK = RECV;`
+        if !self.spec.letsplit.is_empty() {
+            let mut out: Vec<Stmt> = vec![];
+            for mut st in old {
+                if let Stmt::Local(l) = &mut st {
+                    if let Some(init) = &mut l.init {
+                        let mut pre: Vec<Stmt> = vec![];
+                        self.letsplit_expr(&mut init.expr, &mut pre);
+                        out.extend(pre);
+                    }
+                } else if let Stmt::Expr(e @ Expr::MethodCall(_), _) = &mut st {
+                    let mut pre: Vec<Stmt> = vec![];
+                    self.letsplit_expr(e, &mut pre);
+                    out.extend(pre);
+                } else if let Stmt::Expr(Expr::Assign(a), _) = &mut st {
+                    if matches!(&*a.left, Expr::Path(_) | Expr::Field(_)) {
+                        let mut pre: Vec<Stmt> = vec![];
+                        self.letsplit_expr(&mut a.right, &mut pre);
+                        out.extend(pre);
+                    }
+                }
+                out.push(st);
+            }
+            old = out;
+        }
         for mut s in old {
             // R-NESTEDFN: fn items nested in a body are scope-level declarations; they are extracted by their own `@fn outer::inner`
             if let Stmt::Item(Item::Fn(_)) = &s { self.bump("R-NESTEDFN"); continue; }
@@ -391,8 +654,36 @@ impl<'a> VisitMut for Norm<'a> {
             let mut after: Vec<Stmt> = vec![];
             // statement-level macros
             if let Stmt::Macro(sm) = &s {
-                if let Some(e) = self.rewrite_macro(&sm.mac.clone()) {
+                let saved0 = std::mem::take(&mut self.hoisted);
+                let rewritten = self.rewrite_macro(&sm.mac.clone());
+                let mine0 = std::mem::replace(&mut self.hoisted, saved0);
+                b.stmts.extend(mine0);
+                if let Some(e) = rewritten {
                     s = Stmt::Expr(e, Some(Default::default()));
+                }
+            }
+            // R-FORLOOP (@forloop K): Rust's own desugaring of `for`, with the VxIter model as the iterator:
+            // `'l: for P in E { B }` -> `let mut __vx_forK = E.into_iter(); 'l: loop { let Some(P) = __vx_forK.next() else { break; }; B }`
+            if let Stmt::Expr(Expr::ForLoop(f), semi) = &s {
+                let n = self.b("loop", self.loop_no + 1);
+                if self.spec.forloop.contains(&n) {
+                    self.pending_loop_sig = Some(squash(&format!("for {} in {}", ts(&f.pat), ts(&f.expr))));
+                    let itv = Ident::new(&format!("__vx_for{}", n), Span::call_site());
+                    let (pat, ex, body, label) = (&f.pat, &f.expr, &f.body.stmts, &f.label);
+                    let mut first: Stmt = match &**ex {
+                        Expr::Path(_) | Expr::MethodCall(_) | Expr::Call(_) | Expr::Field(_) => parse_quote!(let mut #itv = #ex.into_iter();),
+                        _ => parse_quote!(let mut #itv = (#ex).into_iter();),
+                    };
+                    let saved0 = std::mem::take(&mut self.hoisted);
+                    self.visit_stmt_mut(&mut first);
+                    let mine0 = std::mem::replace(&mut self.hoisted, saved0);
+                    b.stmts.extend(mine0);
+                    b.stmts.push(first);
+                    let head_id = Ident::new(&format!("__vx_anchor_loop{}_head", n), Span::call_site());
+                    let bound_id = Ident::new(&format!("__vx_anchor_loop{}_bound", n), Span::call_site());
+                    let lp: Expr = parse_quote!(#label loop { #head_id!(); let Some(#pat) = #itv.next() else { break; }; #bound_id!(); #(#body)* });
+                    s = Stmt::Expr(lp, *semi);
+                    self.bump("R-FORLOOP");
                 }
             }
             if let Stmt::Local(l) = &s {
@@ -439,12 +730,14 @@ impl<'a> VisitMut for Norm<'a> {
                 let name = first_ident(&l.pat);
                 if let Some(name) = name {
                     let k = { let k = self.let_no.entry(name.clone()).or_default(); *k += 1; *k };
+                    let init_txt = l.init.as_ref().map(|i| ts(&i.expr)).unwrap_or_default();
+                    self.sigs.entry(format!("let:{}", name)).or_default().push(squash(&init_txt));
                     before.extend(self.anchor(&format!("before-let {}#{}", name, k)));
                     if k == 1 { before.extend(self.anchor(&format!("before-let {}", name))); }
                     after.extend(self.anchor(&format!("after-let {}#{}", name, k)));
                     if k == 1 { after.extend(self.anchor(&format!("after-let {}", name))); }
                     // R-LETTYPE
-                    if let (Some(ty), Pat::Ident(_)) = (self.spec.lettype.get(&name), &l.pat) {
+                    if let (Some(ty), Pat::Ident(_)) = (self.spec.lettype.get(&name).cloned().as_ref(), &l.pat) {
                         if let Ok(t) = parse_str::<Type>(ty) {
                             let p = l.pat.clone();
                             l.pat = Pat::Type(PatType { attrs: vec![], pat: Box::new(p), colon_token: Default::default(), ty: Box::new(t) });
@@ -453,17 +746,39 @@ impl<'a> VisitMut for Norm<'a> {
                     }
                 }
             }
+            // R-REFPAT on `let` patterns (incl. let-else): `Some(&x)` -> `Some(__vx_rN)` + `let x = *__vx_rN;`
+            let mut derefs: Vec<Stmt> = vec![];
+            if let Stmt::Local(l) = &mut s {
+                self.strip_ref_pats(&mut l.pat, &mut derefs);
+            }
             let saved = std::mem::take(&mut self.hoisted);
             self.visit_stmt_mut(&mut s);
-            let mut mine = std::mem::replace(&mut self.hoisted, saved);
-            // R-CHAINBIND: name intermediates of the statement's root method chain
-            if !self.spec.chainbind.is_empty() {
-                let root: Option<&mut Expr> = match &mut s {
-                    Stmt::Local(l) => l.init.as_mut().map(|i| &mut *i.expr),
-                    Stmt::Expr(e, _) => Some(e),
+            let mine = std::mem::replace(&mut self.hoisted, saved);
+            // R-ARGBIND: name one argument of a statement-level call (`f(..);`, tail `f(..)`, `let p = f(..);`) so that
+            // ghost text can refer to it. Only when every earlier argument is a path/literal (evaluation order is kept).
+            let mut argbind: Vec<Stmt> = vec![];
+            if !self.spec.bindarg.is_empty() {
+                let call: Option<&mut ExprCall> = match &mut s {
+                    Stmt::Expr(Expr::Call(c), _) => Some(c),
+                    Stmt::Local(l) => l.init.as_mut().and_then(|i| if i.diverge.is_none() { if let Expr::Call(c) = &mut *i.expr { Some(c) } else { None } } else { None }),
                     _ => None,
                 };
-                if let Some(root) = root { self.chainbind_spine(root, &mut mine); }
+                if let Some(c) = call {
+                    let nm = squash(&ts(&c.func));
+                    let k = { let k = self.bind_no.entry(nm.clone()).or_default(); *k += 1; *k };
+                    let specs: Vec<(usize, (String, usize, usize, String))> = self.spec.bindarg.iter().cloned().enumerate().collect();
+                    for (bi, (callee, kk, idx, name)) in specs {
+                        if callee == nm && kk == k && idx < c.args.len() && c.args.iter().take(idx).all(|a| matches!(a, Expr::Path(_) | Expr::Lit(_))) {
+                            let id = Ident::new(&name, Span::call_site());
+                            let a = c.args[idx].clone();
+                            argbind.push(parse_quote!(let #id = #a;));
+                            c.args[idx] = parse_quote!(#id);
+                            argbind.extend(self.anchor(&format!("after-let {}", name)));
+                            self.bind_done.insert(bi);
+                            self.bump("R-ARGBIND");
+                        }
+                    }
+                }
             }
             // call anchors (after renaming)
             let callee = match &s {
@@ -473,8 +788,15 @@ impl<'a> VisitMut for Norm<'a> {
             };
             if let Some(nm) = callee {
                 let k = { let k = self.call_no.entry(nm.clone()).or_default(); *k += 1; *k };
+                let call_txt = match &s { Stmt::Expr(e, _) => ts(e), _ => String::new() };
+                self.sigs.entry(format!("call:{}", nm)).or_default().push(squash(&call_txt));
                 before.extend(self.anchor(&format!("before.{}#{}", nm, k)));
                 after.extend(self.anchor(&format!("after.{}#{}", nm, k)));
+            }
+            match &s {
+                Stmt::Expr(Expr::Continue(_), _) => { self.sigs.entry("continue".into()).or_default().push("continue".into()); let k = { let k = self.call_no.entry("continue!".into()).or_default(); *k += 1; *k }; before.extend(self.anchor(&format!("continue#{}", k))); }
+                Stmt::Expr(Expr::Break(_), _) => { self.sigs.entry("break".into()).or_default().push("break".into()); let k = { let k = self.call_no.entry("break!".into()).or_default(); *k += 1; *k }; before.extend(self.anchor(&format!("break#{}", k))); }
+                _ => {}
             }
             if loop_stmt {
                 before.extend(self.anchor(&format!("loop{}.before", next_loop)));
@@ -482,7 +804,9 @@ impl<'a> VisitMut for Norm<'a> {
             }
             b.stmts.extend(mine);
             b.stmts.extend(before);
+            b.stmts.extend(argbind);
             b.stmts.push(s);
+            b.stmts.extend(derefs);
             b.stmts.extend(after);
         }
     }
@@ -490,9 +814,48 @@ impl<'a> VisitMut for Norm<'a> {
     fn visit_expr_mut(&mut self, e: &mut Expr) {
         // ---- pre-order rewrites that change the node kind
         match e {
+            Expr::Block(eb) if eb.label.is_none() && eb.block.stmts.len() == 2 => {
+                // R-MAP(peek_mut): `{ let mut X = R.peek_mut()?; mem::replace(&mut *X, V) }` -> `R.vx_replace_top(V)?`
+                let mut repl: Option<Expr> = None;
+                if let (Stmt::Local(l), Stmt::Expr(Expr::Call(c), None)) = (&eb.block.stmts[0], &eb.block.stmts[1]) {
+                    if let (Pat::Ident(pi), Some(init)) = (&l.pat, &l.init) {
+                        if let (Expr::Try(t), None) = (&*init.expr, &init.diverge) {
+                            if let Expr::MethodCall(mc) = &*t.expr {
+                                if mc.method == "peek_mut" && mc.args.is_empty() && squash(&ts(&c.func)).ends_with("mem::replace") && c.args.len() == 2 {
+                                    let want = format!("&mut*{}", pi.ident);
+                                    if squash(&ts(&c.args[0])) == want {
+                                        let (r, v) = (&mc.receiver, &c.args[1]);
+                                        repl = Some(parse_quote!(#r.vx_replace_top(#v)?));
+                                    }
+                                }
+                            }
+                        }
+                    }
+                }
+                if let Some(r) = repl { *e = r; self.bump("R-MAP(peek_mut)"); }
+            }
+            _ => {}
+        }
+        match e {
             Expr::While(w) => {
+                if let Expr::Let(l) = &mut *w.cond {
+                    // R-MAP(peek_mut): `while let PAT(X) = R.peek_mut().. { .. PeekMut::pop(X) .. }` -> `R.peek()..` / `R.vx_peekmut_pop()`
+                    let binder = Self::single_binder(&l.pat);
+                    let mut probe = (*l.expr).clone();
+                    if let (Some(binder), Some(recv)) = (binder, Self::peek_mut_root(&mut probe)) {
+                        let mut v = PeekMutPop { binder, recv, replaced: 0, other_uses: 0 };
+                        v.visit_block_mut(&mut w.body);
+                        if v.other_uses > 0 {
+                            self.errors.push(format!("`peek_mut()` binder used other than by `PeekMut::pop` in {}", self.fname));
+                        } else {
+                            *l.expr = probe;
+                            self.bump("R-MAP(peek_mut)");
+                        }
+                    }
+                }
                 if let Expr::Let(l) = &*w.cond {
-                    if self.spec.whilelet.contains(&(self.loop_no + 1)) {
+                    if self.spec.whilelet.contains(&self.b("loop", self.loop_no + 1)) {
+                        self.pending_loop_sig = Some(squash(&format!("while let {} = {}", ts(&l.pat), ts(&l.expr))));
                         let (pat, ex) = (&l.pat, &l.expr);
                         let body = &w.body.stmts;
                         let label = &w.label;
@@ -511,8 +874,12 @@ impl<'a> VisitMut for Norm<'a> {
                     return;
                 }
             }
+            Expr::Closure(c) if c.asyncness.is_some() => {
+                c.asyncness = None;
+                self.bump("R-ASYNC");
+            }
             Expr::Lit(ExprLit { lit: Lit::ByteStr(bs), .. }) => {
-                // R-BYTESTR: b"ab" -> &[97u8, 98u8]  (same type &[u8; N], contents visible to Verus)
+                // R-BYTESTR: b"ab" -> (&[97u8, 98u8])  (same type &[u8; N], contents visible to Verus)
                 let elems: Vec<LitInt> = bs.value().iter().map(|b| LitInt::new(&format!("{}u8", b), Span::call_site())).collect();
                 *e = parse_quote!((&[#(#elems),*]));
                 self.bump("R-BYTESTR");
@@ -527,6 +894,17 @@ impl<'a> VisitMut for Norm<'a> {
             }
             Expr::If(i) => {
                 self.rewrite_if(i);
+            }
+            Expr::MethodCall(mc) if mc.method == "or_else" && mc.args.len() == 1
+                && matches!(mc.args.first(), Some(Expr::Closure(c)) if c.inputs.is_empty() && c.asyncness.is_none()) =>
+            {
+                // R-ORELSE: `X.or_else(|| F)` -> `match X { Some(v) => Some(v), None => F }` (the definition of
+                // Option::or_else; a zero-parameter closure only fits Option's). Verus has no closures capturing `&mut`.
+                let recv = (*mc.receiver).clone();
+                let Some(Expr::Closure(c)) = mc.args.first() else { unreachable!() };
+                let body = (*c.body).clone();
+                *e = parse_quote!(match #recv { Some(__vx_some) => Some(__vx_some), None => #body, });
+                self.bump("R-ORELSE");
             }
             Expr::MethodCall(mc) => {
                 // R-MAP: map.retain(|_, v| BODY) -> map.vx_retain_values(|v| BODY)
@@ -550,6 +928,8 @@ impl<'a> VisitMut for Norm<'a> {
             Expr::While(w) => {
                 self.loop_no += 1;
                 let n = self.loop_no;
+                let sg = squash(&format!("while {}", ts(&w.cond)));
+                self.sigs.entry("loop".into()).or_default().push(sg);
                 self.visit_expr_mut(&mut w.cond);
                 self.visit_block_mut(&mut w.body);
                 self.finish_loop(n, &mut w.body);
@@ -558,6 +938,8 @@ impl<'a> VisitMut for Norm<'a> {
             Expr::Loop(l) => {
                 self.loop_no += 1;
                 let n = self.loop_no;
+                let sg = self.pending_loop_sig.take().unwrap_or_else(|| "loop".to_string());
+                self.sigs.entry("loop".into()).or_default().push(sg);
                 self.visit_block_mut(&mut l.body);
                 // loopN.head anchor placeholder inserted by R-WHILELET
                 let head = format!("__vx_anchor_loop{}_head", n);
@@ -583,10 +965,24 @@ impl<'a> VisitMut for Norm<'a> {
             Expr::ForLoop(f) => {
                 self.loop_no += 1;
                 let n = self.loop_no;
+                let sg = squash(&format!("for {} in {}", ts(&f.pat), ts(&f.expr)));
+                self.sigs.entry("loop".into()).or_default().push(sg);
                 self.visit_expr_mut(&mut f.expr);
+                // R-ITER(for-ref), opt-in (`@opt forref`): `for P in &E` is `for P in E.iter()` for every std collection
+                let mut forref = false;
+                if self.spec.opts.contains("forref") {
+                    if let Expr::Reference(r) = &*f.expr {
+                        if r.mutability.is_none() {
+                            let inner = &r.expr;
+                            *f.expr = parse_quote!(#inner.vx_iter());
+                            self.bump("R-ITER(for-ref)");
+                            forref = true;
+                        }
+                    }
+                }
                 // iterator chain in head position
-                let mut chain = Self::is_iter_chain(&f.expr);
-                if let Expr::MethodCall(mc) = &mut *f.expr {
+                let mut chain = Self::is_iter_chain(&f.expr, &self.unit.iter_fns);
+                if let (false, Expr::MethodCall(mc)) = (forref, &mut *f.expr) {
                     if mc.args.is_empty() && mc.method == "vx_iter" {
                         mc.method = Ident::new("iter", mc.method.span());
                         chain = false;
@@ -596,23 +992,39 @@ impl<'a> VisitMut for Norm<'a> {
                         chain = false;
                     }
                 }
+                // a bare identifier that names a `VxIter`-typed parameter is an iterator chain of length 0
+                if let Expr::Path(p) = &*f.expr {
+                    if p.path.get_ident().map(|i| self.iter_idents.contains(&i.to_string())).unwrap_or(false) { chain = true; }
+                }
                 if chain {
                     let ex = &f.expr;
                     *f.expr = parse_quote!(#ex.into_vec());
                     self.bump("R-ITER(for)");
+                } else if self.spec.foriter.contains(&self.b("loop", n)) {
+                    // R-FORITER: `for P in E` over a modelled collection (by reference) -> `for P in E.vx_iter().into_vec()`
+                    let ex = &f.expr;
+                    *f.expr = parse_quote!(#ex.vx_iter().into_vec());
+                    self.bump("R-FORITER");
                 }
-                if let Some(lbl) = self.spec.loop_labels.get(&n) {
+                if let Some(lbl) = self.spec.loop_labels.get(&self.b("loop", n)) {
                     let w = Ident::new(&format!("__vx_it_{}", lbl), Span::call_site());
                     let ex = &f.expr;
                     *f.expr = parse_quote!(#w(#ex));
                 }
                 self.visit_block_mut(&mut f.body);
+                // R-REFPAT on a `for` pattern: `for (i, &x) in ..` -> `for (i, __vx_rN) in .. { let x = *__vx_rN; ..`
+                {
+                    let mut derefs: Vec<Stmt> = vec![];
+                    self.strip_ref_pats(&mut f.pat, &mut derefs);
+                    for (k, d) in derefs.into_iter().enumerate() { f.body.stmts.insert(k, d); }
+                }
                 self.finish_loop(n, &mut f.body);
                 f.attrs.clear();
             }
             Expr::If(i) => {
                 self.if_no += 1;
                 let n = self.if_no;
+                self.sig("if", &i.cond);
                 self.visit_expr_mut(&mut i.cond);
                 self.visit_block_mut(&mut i.then_branch);
                 let s0 = self.anchor(&format!("if{}.then.start", n));
@@ -660,12 +1072,34 @@ impl<'a> VisitMut for Norm<'a> {
             Expr::Match(m) => {
                 self.match_no += 1;
                 let n = self.match_no;
+                self.sig("match", &m.expr);
                 self.visit_expr_mut(&mut m.expr);
                 // R-SLICEPAT on match arms over a slice
                 let has_slice = m.arms.iter().any(|a| matches!(a.pat, Pat::Slice(_)));
                 for (j, arm) in m.arms.iter_mut().enumerate() {
                     if let Some((_, g)) = &mut arm.guard { self.visit_expr_mut(g); }
                     self.visit_expr_mut(&mut arm.body);
+                    // R-REFPAT in unguarded match arms whose reference patterns bind plain identifiers:
+                    // `Some(&x) => B` -> `Some(__vx_rN) => { let x = *__vx_rN; B }`
+                    fn ident_refs_only(p: &Pat) -> (bool, bool) {
+                        // (all reference patterns are over plain identifiers, there is at least one)
+                        match p {
+                            Pat::Reference(r) => { let mut c: &Pat = &r.pat; while let Pat::Reference(r2) = c { c = &r2.pat; } (matches!(c, Pat::Ident(pi) if pi.subpat.is_none() && pi.by_ref.is_none()), true) }
+                            Pat::Tuple(t) => t.elems.iter().map(ident_refs_only).fold((true, false), |a, b| (a.0 && b.0, a.1 || b.1)),
+                            Pat::TupleStruct(t) => t.elems.iter().map(ident_refs_only).fold((true, false), |a, b| (a.0 && b.0, a.1 || b.1)),
+                            Pat::Paren(pp) => ident_refs_only(&pp.pat),
+                            _ => (true, false),
+                        }
+                    }
+                    if arm.guard.is_none() && ident_refs_only(&arm.pat) == (true, true) {
+                        let mut derefs: Vec<Stmt> = vec![];
+                        self.strip_ref_pats(&mut arm.pat, &mut derefs);
+                        if !derefs.is_empty() {
+                            let body = (*arm.body).clone();
+                            *arm.body = parse_quote!({ #(#derefs)* #body });
+                            if arm.comma.is_none() { arm.comma = Some(Default::default()); }
+                        }
+                    }
                     let a0 = self.anchor(&format!("match{}.arm{}.start", n, j + 1));
                     let a1 = self.anchor(&format!("match{}.arm{}.end", n, j + 1));
                     if !a0.is_empty() || !a1.is_empty() {
@@ -691,7 +1125,8 @@ impl<'a> VisitMut for Norm<'a> {
                             Pat::Wild(_) => { chain = Some(parse_quote!({ #body })); }
                             p => {
                                 if let Some((len, binds)) = Self::slice_pat_bindings(p) {
-                                    let lets: Vec<Stmt> = binds.iter().map(|(k, p)| { let k = LitInt::new(&k.to_string(), Span::call_site()); parse_quote!(let #p = &#base[#k];) }).collect();
+                                    let is_mut = matches!(&base, Expr::Path(bp) if bp.path.get_ident().map(|i| self.mut_slices.contains(&i.to_string())).unwrap_or(false));
+                                    let lets: Vec<Stmt> = binds.iter().map(|(k, p)| { let k = LitInt::new(&k.to_string(), Span::call_site()); if is_mut { parse_quote!(let #p = &mut #base[#k];) } else { parse_quote!(let #p = &#base[#k];) } }).collect();
                                     let len = LitInt::new(&len.to_string(), Span::call_site());
                                     chain = Some(match chain { Some(c) => parse_quote!(if #base.len() == #len { #(#lets)* #body } else #c), None => parse_quote!(if #base.len() == #len { #(#lets)* #body }) });
                                 } else { ok = false; break; }
@@ -704,12 +1139,14 @@ impl<'a> VisitMut for Norm<'a> {
             Expr::Closure(c) => {
                 self.closure_no += 1;
                 let n = self.closure_no;
+                { let c0: &ExprClosure = c; self.sig("closure", c0); }
+                let bn = self.b("closure", n);
                 self.closure_depth += 1;
                 let saved = std::mem::take(&mut self.hoisted);
                 self.visit_expr_mut(&mut c.body);
                 let inner_hoisted = std::mem::replace(&mut self.hoisted, saved);
                 self.closure_depth -= 1;
-                if let Some(cs) = self.spec.closures.get(&n).cloned() {
+                if let Some(cs) = self.spec.closures.get(&bn).cloned() {
                     let typed: Vec<FnArg> = cs.params.iter().filter_map(|p| parse_str::<FnArg>(p.trim()).ok()).collect();
                     if typed.len() != c.inputs.len() {
                         self.errors.push(format!("closure {} of {}: {} params in source, {} in spec", n, self.fname, c.inputs.len(), typed.len()));
@@ -725,7 +1162,15 @@ impl<'a> VisitMut for Norm<'a> {
                         new_inputs.push(Pat::Type(PatType { attrs: vec![], pat: pname.clone(), colon_token: Default::default(), ty: pty.clone() }));
                         let old_inner = match old { Pat::Type(t) => &*t.pat, o => o };
                         match old_inner {
-                            Pat::Reference(r) => { let inner = &r.pat; lets.push(parse_quote!(let #inner = *#pname;)); self.bump("R-REFPAT"); }
+                            Pat::Reference(_) => {
+                                let mut depth = 0usize;
+                                let mut cur: Pat = old_inner.clone();
+                                while let Pat::Reference(r) = cur { depth += 1; cur = (*r.pat).clone(); }
+                                let mut ex: Expr = parse_quote!(#pname);
+                                for _ in 0..depth { ex = parse_quote!(*#ex); }
+                                lets.push(parse_quote!(let #cur = #ex;));
+                                self.bump("R-REFPAT");
+                            }
                             Pat::Ident(pi) if pi.ident == ts(pname) => {}
                             other => { lets.push(parse_quote!(let #other = #pname;)); }
                         }
@@ -753,7 +1198,7 @@ impl<'a> VisitMut for Norm<'a> {
                     }
                     c.body = Box::new(Expr::Block(ExprBlock { attrs: vec![], label: None, block: blk }));
                     c.output = ReturnType::Default;
-                    let var = Ident::new(&format!("__c{}", n), Span::call_site());
+                    let var = Ident::new(&format!("__c{}", bn), Span::call_site());
                     let clos = c.clone();
                     self.hoisted.push(parse_quote!(let #var = #clos;));
                     *e = parse_quote!(#var);
@@ -765,13 +1210,14 @@ impl<'a> VisitMut for Norm<'a> {
             Expr::Return(r) => {
                 self.return_no += 1;
                 let n = self.return_no;
+                { let r0: &ExprReturn = r; self.sig("return", r0); }
                 if let Some(x) = &mut r.expr { self.visit_expr_mut(x); }
                 let pre = self.anchor(&format!("return#{}", n));
                 let can = if self.closure_depth == 0 { self.canary_stmt(&format!("return#{}", n)) } else { None };
                 if !pre.is_empty() || can.is_some() {
                     let rn = Ident::new(&self.spec.ret_name, Span::call_site());
                     let mut blk: Block = parse_quote!({});
-                    if let Some(x) = &r.expr { blk.stmts.push(parse_quote!(let #rn = #x;)); }
+                    if let Some(x) = &r.expr { match &self.ret_ty { Some(t) => blk.stmts.push(parse_quote!(let #rn: #t = #x;)), None => blk.stmts.push(parse_quote!(let #rn = #x;)) } }
                     blk.stmts.extend(pre);
                     blk.stmts.extend(can);
                     if r.expr.is_some() { blk.stmts.push(parse_quote!(return #rn;)); } else { blk.stmts.push(parse_quote!(return;)); }
@@ -799,7 +1245,37 @@ impl<'a> VisitMut for Norm<'a> {
                         }
                     }
                 }
-                let mapped = self.unit.method_map.iter().find(|(k, _)| k == &name).map(|(_, v)| v.clone());
+                // R-LETSPLIT, named form (`@letsplit METHOD#k NAME`): the receiver of the k-th METHOD call, anywhere in an expression,
+                // is bound to `let NAME = recv;` before the enclosing statement; only for receivers that are pure by syntax
+                if self.spec.letsplit_named.iter().any(|(k, _)| k.split('#').next() == Some(name.as_str())) {
+                    let k = { let k = self.splitk_no.entry(name.clone()).or_default(); *k += 1; *k };
+                    let key = format!("{}#{}", name, k);
+                    if let Some((_, nm)) = self.spec.letsplit_named.iter().find(|(kk, _)| kk == &key).cloned() {
+                        fn pure(e: &Expr) -> bool {
+                            match e {
+                                Expr::Path(_) | Expr::Lit(_) => true,
+                                Expr::Field(f) => pure(&f.base),
+                                Expr::Reference(r) => r.mutability.is_none() && pure(&r.expr),
+                                Expr::Paren(p) => pure(&p.expr),
+                                Expr::Unary(u) => matches!(u.op, UnOp::Deref(_)) && pure(&u.expr),
+                                Expr::MethodCall(m) => m.args.is_empty() && ITER_HEADS_M.contains(&m.method.to_string().as_str()) && pure(&m.receiver),
+                                Expr::Call(c) => matches!(&*c.func, Expr::Path(p) if p.path.segments.last().map(|s| ITER_HEADS_F.contains(&s.ident.to_string().as_str())).unwrap_or(false)) && c.args.iter().all(pure),
+                                _ => false,
+                            }
+                        }
+                        if pure(&mc.receiver) {
+                            let id = Ident::new(&nm, Span::call_site());
+                            let recv = &mc.receiver;
+                            self.hoisted.push(parse_quote!(let #id = #recv;));
+                            mc.receiver = Box::new(parse_quote!(#id));
+                            self.used_anchors.insert(format!("letsplit {}", key));
+                            self.bump("R-LETSPLIT");
+                        } else {
+                            self.errors.push(format!("@letsplit {}: receiver is not pure by syntax (in {})", key, self.fname));
+                        }
+                    }
+                }
+                let mapped = self.spec.method_map.iter().chain(self.unit.method_map.iter()).find(|(k, _)| k == &name).map(|(_, v)| v.clone());
                 if let Some(to) = mapped {
                     mc.method = Ident::new(&to, mc.method.span());
                     mc.turbofish = None;
@@ -842,6 +1318,24 @@ impl<'a> VisitMut for Norm<'a> {
                                 }
                             }
                             if !done { self.errors.push(format!("`.or_insert(..)` chain outside R-MAP in {}", self.fname)); }
+                        }
+                        // R-MAP(filter-eta): `o.filter(|&v| f(v))` with `f` a local FnMut -> `vx_opt_filter_with(o, &mut f)`
+                        // (Verus has no closures capturing `&mut`; the shim's body is this very closure)
+                        "filter" if mc.args.len() == 1 => {
+                            if let Some(Expr::Closure(cl)) = mc.args.first() {
+                                if cl.inputs.len() == 1 {
+                                    if let (Pat::Reference(pr), Expr::Call(call)) = (&cl.inputs[0], &*cl.body) {
+                                        if let (Pat::Ident(pi), Expr::Path(fp)) = (&*pr.pat, &*call.func) {
+                                            let arg_is_param = call.args.len() == 1 && ts(&call.args[0]) == pi.ident.to_string();
+                                            if let (true, Some(f)) = (arg_is_param, fp.path.get_ident()) {
+                                                let recv = &mc.receiver;
+                                                replace = Some(parse_quote!(vx_opt_filter_with(#recv, &mut #f)));
+                                                self.bump("R-MAP(filter-eta)");
+                                            }
+                                        }
+                                    }
+                                }
+                            }
                         }
                         "read_to_end" if mc.args.len() == 1 => {
                             // R-ASYNCIO: `S.take(N).read_to_end(P)` -> `vx_take_read_to_end(S, N, P)` (futures AsyncReadExt adaptor pair)
@@ -897,6 +1391,34 @@ impl<'a> VisitMut for Norm<'a> {
                     }
                 }
             }
+            Expr::Lit(ExprLit { lit: Lit::Str(l), .. }) => {
+                // R-STR: a string literal in expression position becomes `<strlit>("lit")` (unit opted in with @strlit)
+                if let Some(f) = &self.unit.strlit {
+                    if let Ok(fp) = parse_str::<Path>(f) {
+                        let l = l.clone();
+                        replace = Some(parse_quote!(#fp(#l)));
+                        self.bump("R-STR");
+                    }
+                }
+            }
+            Expr::Reference(r) if r.mutability.is_none() => {
+                // R-STRSLICE: `&x[a..b]` / `&x[a..]` / `&x[..b]` with `x` a `&str` parameter (or a shadowing rebinding of it)
+                if let Expr::Index(ix) = &*r.expr {
+                    let is_str = if let Expr::Path(p) = &*ix.expr { p.path.get_ident().map(|i| self.str_idents.contains(&i.to_string())).unwrap_or(false) } else { false };
+                    if let (true, Expr::Range(rg)) = (is_str, &*ix.index) {
+                        if matches!(rg.limits, RangeLimits::HalfOpen(_)) {
+                            let x = &ix.expr;
+                            match (rg.start.as_ref(), rg.end.as_ref()) {
+                                (Some(a), Some(b)) => { replace = Some(parse_quote!(#x.vx_slice(#a, #b))); }
+                                (Some(a), None) => { replace = Some(parse_quote!(#x.vx_slice_from(#a))); }
+                                (None, Some(b)) => { replace = Some(parse_quote!(#x.vx_slice_to(#b))); }
+                                (None, None) => {}
+                            }
+                            if replace.is_some() { self.bump("R-STRSLICE"); }
+                        }
+                    }
+                }
+            }
             Expr::Binary(b) => {
                 // R-ENUMEQ
                 if matches!(b.op, BinOp::Eq(_) | BinOp::Ne(_)) {
@@ -924,35 +1446,52 @@ impl<'a> VisitMut for Norm<'a> {
 }
 
 impl<'a> Norm<'a> {
-    /// R-CHAINBIND: walk the receiver spine of a statement's root expression (innermost first); a method call
-    /// `recv.METHOD(..)` that is the k-th METHOD seen on root spines of this fn and is named by `@chainbind METHOD#k [mut] NAME`
-    /// becomes `let [mut] NAME = recv.METHOD(..);` before the statement and `NAME` in the chain. The spine head is
-    /// evaluated first anyway, so evaluation order is unchanged.
-    fn chainbind_spine(&mut self, e: &mut Expr, out: &mut Vec<Stmt>) {
+    /// R-BINDSPINE: walk the "first evaluated" spine of an expression (method receiver, first argument of a path call,
+    /// operand of `?`/`.await`) and bind the calls named by @bindspine to fresh `__tK` temporaries, innermost first.
+    fn split_spine(&mut self, e: &mut Expr, out: &mut Vec<Stmt>) {
         match e {
-            Expr::MethodCall(mc) => self.chainbind_spine(&mut mc.receiver, out),
-            Expr::Try(t) => { self.chainbind_spine(&mut t.expr, out); return; }
-            Expr::Paren(p) => { self.chainbind_spine(&mut p.expr, out); return; }
-            Expr::Field(f) => { self.chainbind_spine(&mut f.base, out); return; }
-            Expr::Call(_) => {}
-            _ => return,
+            Expr::MethodCall(mc) => {
+                if matches!(&*mc.receiver, Expr::Path(_)) { if let Some(first) = mc.args.first_mut() { self.split_slot(first, out); } } else { self.split_slot(&mut mc.receiver, out) }
+            }
+            Expr::Call(c) => {
+                if matches!(&*c.func, Expr::Path(_)) {
+                    if let Some(first) = c.args.first_mut() { self.split_slot(first, out); }
+                }
+            }
+            Expr::Try(t) => self.split_spine(&mut t.expr, out),
+            Expr::Await(a) => self.split_spine(&mut a.base, out),
+            Expr::Paren(p) => self.split_spine(&mut p.expr, out),
+            _ => {}
         }
-        // a method call on the spine, or the free-function call at the head of the spine (keyed by its last path segment)
-        let nm = match e {
-            Expr::MethodCall(mc) => mc.method.to_string(),
-            Expr::Call(c) => match &*c.func { Expr::Path(p) => match p.path.segments.last() { Some(s) => s.ident.to_string(), None => return }, _ => return },
-            _ => return,
+    }
+    fn split_slot(&mut self, slot: &mut Expr, out: &mut Vec<Stmt>) {
+        // `&[a, b, c]` (pseudo-callee `[]`): the array temporary gets a name, the slot borrows it
+        if let Expr::Reference(r) = slot {
+            if r.mutability.is_none() && matches!(&*r.expr, Expr::Array(_)) && self.spec.bindspine.iter().any(|x| x == "[]") {
+                self.spine_no += 1;
+                let id = Ident::new(&format!("__t{}", self.spine_no), Span::call_site());
+                let val = (*r.expr).clone();
+                out.push(parse_quote!(let #id = #val;));
+                r.expr = Box::new(parse_quote!(#id));
+                self.bump("R-BINDSPINE");
+                return;
+            }
+        }
+        self.split_spine(slot, out);
+        let callee = match &*slot {
+            Expr::MethodCall(r) => Some(r.method.to_string()),
+            Expr::Call(c) => if let Expr::Path(p) = &*c.func { p.path.segments.last().map(|s| s.ident.to_string()) } else { None },
+            _ => None,
         };
-        let k = { let k = self.chain_no.entry(nm.clone()).or_default(); *k += 1; *k };
-        let key = format!("{}#{}", nm, k);
-        if let Some((_, is_mut, name)) = self.spec.chainbind.iter().find(|(m, _, _)| m == &key).cloned() {
-            let id = Ident::new(&name, Span::call_site());
-            let old = e.clone();
-            out.push(if is_mut { parse_quote!(let mut #id = #old;) } else { parse_quote!(let #id = #old;) });
-            out.extend(self.anchor(&format!("after-let {}", name)));
-            *e = parse_quote!(#id);
-            self.used_anchors.insert(format!("chainbind {}", key));
-            self.bump("R-CHAINBIND");
+        if let Some(nm) = callee {
+            if self.spec.bindspine.iter().any(|x| x == &nm) {
+                self.spine_no += 1;
+                let id = Ident::new(&format!("__t{}", self.spine_no), Span::call_site());
+                let val = slot.clone();
+                out.push(parse_quote!(let #id = #val;));
+                *slot = parse_quote!(#id);
+                self.bump("R-BINDSPINE");
+            }
         }
     }
 
@@ -962,8 +1501,8 @@ impl<'a> Norm<'a> {
         let can = self.canary_stmt(&format!("loop{}", n));
         // keep a `let PAT = __vx_xK;` (R-FORPAT) first
         let mut pos = 0;
-        if let Some(Stmt::Local(l)) = body.stmts.first() {
-            if let Some(init) = &l.init { if ts(&init.expr).starts_with("__vx_x") { pos = 1; } }
+        while let Some(Stmt::Local(l)) = body.stmts.get(pos) {
+            match &l.init { Some(init) if ts(&init.expr).contains("__vx_r") || ts(&init.expr).starts_with("__vx_x") => pos += 1, _ => break }
         }
         for (k, s) in s0.into_iter().enumerate() { body.stmts.insert(pos + k, s); }
         body.stmts.extend(s1);
@@ -987,7 +1526,7 @@ impl<'a> Norm<'a> {
                 if !ret.is_empty() || can.is_some() {
                     // a diverging tail (e.g. `loop {}` / if-else with returns) is bound too; harmless
                     let rn = Ident::new(&self.spec.ret_name, Span::call_site());
-                    block.stmts.push(parse_quote!(let #rn = #t;));
+                    match &self.ret_ty { Some(ty) => block.stmts.push(parse_quote!(let #rn: #ty = #t;)), None => block.stmts.push(parse_quote!(let #rn = #t;)) }
                     block.stmts.extend(ret);
                     block.stmts.extend(can);
                     block.stmts.push(Stmt::Expr(parse_quote!(#rn), None));
@@ -1000,6 +1539,9 @@ impl<'a> Norm<'a> {
                 block.stmts.extend(ret);
                 block.stmts.extend(can);
             }
+        }
+        for (bi, (callee, k, idx, name)) in self.spec.bindarg.iter().enumerate() {
+            if !self.bind_done.contains(&bi) { self.errors.push(format!("@bindarg {}#{} {} {}: no such statement-level call in {}", callee, k, idx, name, self.fname)); }
         }
         let _ = quote!();
     }
